@@ -1,6 +1,7 @@
 package c08
 
 import (
+	"fmt"
 	"net/http"
 	"os"
 	"strings"
@@ -31,6 +32,12 @@ func probeDesign() *m.Design {
 	d.Types = append(d.Types, &m.UserType{Name: "Box", Var: "v3", Result: true, Identifier: "application/vnd.box",
 		Attr:  rt.Obj(rt.Fld("c", m.Prim(m.Int), false), rt.Fld("size", rt.Obj(rt.Fld("b", m.Prim(m.Int), false)), true)),
 		Views: []*m.View{{Name: "default", Fields: allViews("c", "size")}, {Name: "tiny", Fields: allViews("c")}}})
+	d.Types = append(d.Types, &m.UserType{Name: "Opts", Var: "v4", Result: true, Identifier: "application/vnd.opts",
+		Attr:  rt.Obj(rt.Fld("b", m.Prim(m.Int), true)),
+		Views: []*m.View{{Name: "default", Fields: allViews("b")}, {Name: "tiny", Fields: allViews("b")}}})
+	d.Types = append(d.Types, &m.UserType{Name: "Entry", Var: "v5", Result: true, Identifier: "application/vnd.entry",
+		Attr:  rt.Obj(rt.Fld("ratio", m.Prim(m.Int), false), rt.Fld("b", m.UserRef("Opts"), false)),
+		Views: []*m.View{{Name: "default", Fields: allViews("ratio", "b")}, {Name: "tiny", Fields: allViews("ratio")}}})
 	s := &m.Service{Name: "probe", HasHTTP: true}
 	add := func(name, typ string, resps ...*m.Response) {
 		s.Methods = append(s.Methods, &m.Method{Name: name, Result: m.UserRef(typ), HTTP: &m.HTTPEndpoint{Routes: []m.Route{{Verb: "GET", Path: "/" + name}}, Responses: resps}})
@@ -38,6 +45,7 @@ func probeDesign() *m.Design {
 	add("getpoint", "Point")
 	add("getinner", "Inner", &m.Response{Status: 200, Headers: []m.Mapping{{Attr: "c", Wire: "X-C"}}})
 	add("getbox", "Box")
+	add("getentry", "Entry")
 	d.Services = []*m.Service{s}
 	return d
 }
@@ -99,6 +107,14 @@ func TestProbes(t *testing.T) {
 		}
 		body := strings.TrimSpace(string(o.Response.Body))
 		return strings.Contains(body, `"l2":{"a":2,"b"`), "Tree default view = {l1 (default), l2 rendered with view tiny = {a}, l3 extended}: wire body " + body
+	})
+	rt.Probe("C08-nested-result-type-requiredness-read-from-nested-type", func() (bool, string) {
+		o := do(&harness.Case{Op: "call", Svc: "probe", Method: "getentry", Stub: harness.StubSpec{HasResult: true, Result: value.Object(f("ratio", value.Int(1))), View: "default"}})
+		t.Logf("entry probe: err=%q clienterr=%v panic=%q", o.Err, o.ClientErr, firstLines(o.Panic, 2))
+		if o.Response == nil || o.Response.Status != 200 {
+			return false, "inconclusive"
+		}
+		return o.ClientErr != nil && strings.Contains(o.ClientErr.Text, "is missing"), "Entry{ratio, b: Opts (optional)}, Opts{b required}: result {ratio:1} is a valid Entry; the generated client answers: " + fmt.Sprintf("%+v", o.ClientErr)
 	})
 	rt.Probe("C08-required-object-absent-client-panic", func() (bool, string) {
 		res := value.Object(f("c", value.Int(1)), f("size", value.Object(f("b", value.Int(2)))))
